@@ -198,11 +198,10 @@ CHECKS = {
         text="Coq theorems (Properties/C04.v): binary codes are in {-1,+1} ({0,1} in 0/1 mode) with the sign of the input and zero positive; ternary codes are in {-1,0,+1}, zero exactly when |x| is below the threshold, otherwise the sign; the least-squares scale s (s*sum q^2 = sum x q) minimises the squared error over ALL scales for every group (QArith) and is non-negative for sign codes; soundness of the element and group checkers. Correspondence (relational): for every group of every tensor the implementation's inputs, outputs and reported scale are judged in Coq with exact rationals: output = float32 STE sum of scale*code, codes follow the sign/threshold rule, scale >= 0, constant per group, equal to the least-squares optimum (2^-17), power of two within bounds for auto_po2.",
         design_ref="DESIGN.md section 5 C04, section 10",
         note=(TB_COMMON + 'tf reductions and float32 log/tanh are oracles: least-squares relation judged to 2^-17, the po2 exponent inside the band of LS*(1+-2^-12); grouping (last axis / scale_axis / elements_per_scale blocks) applied by the harness as documented.'),
-        technique="Coq proof (codes, least-squares optimality) + certified relational checker evaluated by vm_compute on the implementation's data"
-              " The shape helpers behind elements_per_scale (_get_unrolled_shape / _get_rolled_back_shape) are modelled in Quant/Shape.v: rolling back what was unrolled is the identity exactly when the factor divides the dimension (with the refuting witness otherwise), the number of elements is preserved, the new axes are (dim / factor, factor) in place; the real helpers are compared with the model exhaustively over small shapes, single axes and lists of axes."),
+        technique="Coq proof (codes, least-squares optimality) + certified relational checker evaluated by vm_compute on the implementation's data"),
     "C05": dict(
         category="proof",
-        text="Coq theorems (Properties/C05.v): soundness of the checkers -- a passing element IS the float32 straight-through sum of (exposed scale)*(integer code) with |code| <= 2^(bits-1)-1 (quantized_bits) resp. clip_min <= code <= clip_max (quantized_linear); the code fits the declared width; scale invariance of the 'auto' codes in exact arithmetic; least-squares optimality of the po2 refinement. Correspondence (relational): every group of elements sharing one exposed scale, over bits/integer/alpha/scale_axis/elements_per_scale/exponent bounds/post_training_scale and tensors incl. zero channels and 1e-5..1e5 magnitudes: scale positive, 'auto' maps the channel maximum exactly onto the top code without clipping any element, 'auto_po2' scales are powers of two within bounds, outputs finite, 2^k equivariance of 'auto' bitwise.",
+        text="Coq theorems (Properties/C05.v): soundness of the checkers -- a passing element IS the float32 straight-through sum of (exposed scale)*(integer code) with |code| <= 2^(bits-1)-1 (quantized_bits) resp. clip_min <= code <= clip_max (quantized_linear); the code fits the declared width; scale invariance of the 'auto' codes in exact arithmetic; least-squares optimality of the po2 refinement. Correspondence (relational): every group of elements sharing one exposed scale, over bits/integer/alpha/scale_axis/elements_per_scale/exponent bounds/post_training_scale and tensors incl. zero channels and 1e-5..1e5 magnitudes: scale positive, 'auto' maps the channel maximum exactly onto the top code without clipping any element, 'auto_po2' scales are powers of two within bounds, outputs finite, 2^k equivariance of 'auto' bitwise. The shape helpers behind elements_per_scale (_get_unrolled_shape / _get_rolled_back_shape) are modelled in Quant/Shape.v: rolling back what was unrolled is the identity exactly when the factor divides the dimension (with the refuting witness otherwise), the number of elements is preserved, the new axes are (dim / factor, factor) in place; the real helpers are compared with the model exhaustively over small shapes, single axes and lists of axes.",
         design_ref="DESIGN.md section 5 C05, section 10, section 10.10",
         note=(TB_COMMON + "The data-dependent scale is produced by tf reductions / float32 log that are not modelled: only the exposed scale is used. 'auto' no-clipping judged with a 2^-18 band. One known finding (legacy auto scale 0 for an all-zero channel)."),
         technique="certified relational checker (soundness proved in Coq) evaluated by vm_compute on the implementation's data"),
